@@ -16,6 +16,7 @@ import (
 	"runtime/debug"
 	"strings"
 	"sync"
+	"syscall"
 	"testing"
 	"testing/synctest"
 	"time"
@@ -47,6 +48,29 @@ type Result struct {
 	Run     *Run
 	WallNS  int64
 	StderrW *stampWriter
+	// StdoutFailed: the injected stdout write error was hit
+	StdoutFailed bool
+}
+
+// failingWriter accepts `left` bytes and then fails like a full disk.
+type failingWriter struct {
+	w      io.Writer
+	left   int
+	failed bool
+}
+
+func (f *failingWriter) Write(b []byte) (int, error) {
+	if len(b) <= f.left {
+		f.left -= len(b)
+		return f.w.Write(b)
+	}
+	n := f.left
+	if n > 0 {
+		f.w.Write(b[:n])
+	}
+	f.left = 0
+	f.failed = true
+	return n, syscall.ENOSPC
 }
 
 // stampWriter records writes with event sequence numbers.
@@ -169,6 +193,12 @@ func RunA(t *testing.T, h Hooks, sc *Scenario, site *Site) *Result {
 	defer func() { pipe.SimCommandStage = nil }()
 
 	var stdout bytes.Buffer
+	var stdoutW io.Writer = &stdout
+	var fw *failingWriter
+	if sc.Plan.StdoutFailAt > 0 {
+		fw = &failingWriter{w: &stdout, left: sc.Plan.StdoutFailAt - 1}
+		stdoutW = fw
+	}
 	stderr := &stampWriter{run: run, name: "stderr"}
 	res.StderrW = stderr
 
@@ -200,7 +230,7 @@ func RunA(t *testing.T, h Hooks, sc *Scenario, site *Site) *Result {
 						res.Panic = fmt.Sprint(p) + "\n" + string(debug.Stack())
 					}
 				}()
-				err := h.Main(context.Background(), &stdout, stderr, sc.Inv.Args)
+				err := h.Main(context.Background(), stdoutW, stderr, sc.Inv.Args)
 				if err != nil {
 					res.Failed = true
 					res.Err = err.Error()
@@ -222,6 +252,10 @@ func RunA(t *testing.T, h Hooks, sc *Scenario, site *Site) *Result {
 	}()
 	res.WallNS = int64(time.Since(wall0))
 	res.Stdout = stdout.Bytes()
+	if fw != nil && fw.failed {
+		res.StdoutFailed = true
+		run.fired("stdout-write-error")
+	}
 	res.Stderr = stderr.buf.Bytes()
 	run.mu.Lock()
 	res.Events = append([]Event(nil), run.events...)
